@@ -84,13 +84,16 @@ Decor(n, p) ==
     [] p = "enum"    -> [n EXCEPT !.at = [enum |-> <<"a", "b">>] @@ @]
     [] p = "both"    -> [n EXCEPT !.at = [pattern |-> "a-z", enum |-> <<"a", "b">>] @@ @]
     [] p = "itemsref" -> [n EXCEPT !.at = ("$ref" :> <<"root", "definitions", "N_9">>) @@ @]
+    \* a $ref on EVERY level of the items chain (multiplicity: one entry per level, all to the same target)
+    [] p = "itemsrefall" -> [n EXCEPT !.at = ("$ref" :> <<"root", "definitions", "N_9">>) @@ @]
     [] OTHER         -> n
 
 \* the plant sits on the owner itself (depth 0) or on items nested depth levels below it
 RECURSIVE ItemsChain(_, _)
 ItemsChain(depth, p) ==
   IF depth = 0 THEN Decor(Leaf("string"), p)
-  ELSE Mk([type |-> "array"], [items |-> ItemsChain(depth - 1, p)])
+  ELSE LET lvl == Mk([type |-> "array"], [items |-> ItemsChain(depth - 1, p)])
+       IN IF p = "itemsrefall" THEN Decor(lvl, p) ELSE lvl
 SimpleOwner(base, depth, p) ==
   IF depth = 0 THEN Decor(base, p)
   ELSE [base EXCEPT !.at = [type |-> "array"] @@ @, !.ch = [items |-> ItemsChain(depth - 1, p)] @@ @]
